@@ -89,6 +89,18 @@ def rolling_mean(x, steps, mode, alt=False):
     return out
 
 
+def rolling_mean_prefix(x_int, steps, mode, alt=False):
+    """The same window means for a series of Python ints in O(n): exact integer prefix sums of the edge-replicated
+    series, one correctly rounded division per sample (used for long series where the direct sum is too slow)."""
+    n = len(x_int)
+    lo, hi = window_offsets(steps, mode, alt)
+    ext = [x_int[0]] * (-lo) + list(x_int) + [x_int[-1]] * hi
+    pre = [0]
+    for v in ext:
+        pre.append(pre[-1] + v)
+    return [(pre[i + steps] - pre[i]) / steps for i in range(n)]
+
+
 # ------------------------------------------------------------------------------------------------ step fit
 def dev_sum(seg, p):
     """Sum of |v - mean(seg)|**p over the segment."""
@@ -124,6 +136,52 @@ def trunc_explains(got, expected, near=1e-9):
         is_near = abs(e - round(e)) <= near * max(1.0, abs(e))
         if is_near and abs(g - t) <= 1:
             continue
+        return False
+    return True
+
+
+def trunc_candidates(e, near=1e-9):
+    """Integers a float result close to e may truncate to: trunc(e), and its neighbours where e lies within `near` of an
+    integer (there the rounding of the real computation decides)."""
+    t = math.trunc(e)
+    if abs(e - round(e)) <= near * max(1.0, abs(e)):
+        return [t, t - 1, t + 1]
+    return [t]
+
+
+def overflow_regime(expected, lo, hi):
+    """Overflow regime of the known finding C20/int-dtype-truncation: some expected error value lies outside the range
+    [lo, hi] of the integer dtype the result array inherited from the input."""
+    return any(math.trunc(e) > hi or math.trunc(e) < lo for e in expected)
+
+
+def wrap_explains(got, expected, bits, lo, cast_many=None, near=1e-9):
+    """Mechanism test in the overflow regime when no exception was raised: every returned element is the float the
+    function computed - some value within near*max(1,|e|) of the expected e (the tolerance of the clause; for e ~ 1e18 that
+    is far more than one unit) - truncated and stored into the fixed-width integer array, i.e. wrapped modulo 2**bits into
+    [lo, lo + 2**bits); or, where the value is so large that the C conversion is undefined, whatever the platform's own
+    float->integer conversion stores at that position: cast_many(list of floats) -> list of stored integers performs the
+    same conversion on a whole array of the same length (vectorised conversions treat out-of-range values differently
+    from the scalar tail, so the position matters). Elements that fit the dtype therefore still equal trunc(expected)
+    (+-1 only next to an integer), exactly as in the truncation regime."""
+    if len(got) != len(expected):
+        return False
+    m = 1 << bits
+    t0s, t1s = [], []
+    for e in expected:
+        d = near * max(1.0, abs(e))
+        t0s.append(math.trunc(e - d))
+        t1s.append(math.trunc(e + d))
+    c0 = c1 = None
+    for i, g in enumerate(got):
+        t0, t1 = t0s[i], t1s[i]
+        if t1 - t0 >= m or (g - ((t0 - lo) % m + lo)) % m <= t1 - t0:
+            continue
+        if cast_many is not None:
+            if c0 is None:
+                c0, c1 = cast_many([float(t) for t in t0s]), cast_many([float(t) for t in t1s])
+            if g == c0[i] or g == c1[i]:
+                continue
         return False
     return True
 
